@@ -193,6 +193,7 @@ func runRemote(t *testing.T, tr *vh.Trace, tid string, g Group, beh []Cmd, cooki
 			case "pub":
 				r.pub(c)
 			case "start":
+				r.bb = c.Bb
 				r.start(c.W, c.Kind, c.ID, c.Filt, c.Mode, c.N, c.P, "pos")
 			case "recv":
 				r.recv(r.ws[c.W])
